@@ -186,6 +186,10 @@ func richHonest(r *mrand.Rand) *world.World {
 			ml = append(ml, world.IsvLevel{Isv: 0, Status: pickStatus(r)})
 		}
 		mods = append(mods, world.ModIdent{ID: fmt.Sprintf("TDX_%02x", p.TeeTcb[1]), Levels: ml})
+		if r.Intn(2) == 0 { // identities are looked up by id: the matching one may be listed anywhere, e.g. TDX_01 before TDX_03
+			mods = append(mods, world.ModIdent{ID: fmt.Sprintf("TDX_%02x", p.TeeTcb[1]+10), Levels: []world.IsvLevel{{Isv: 255, Status: "UpToDate"}, {Isv: 0, Status: "OutOfDate"}}})
+			r.Shuffle(len(mods), func(a, b int) { mods[a], mods[b] = mods[b], mods[a] })
+		}
 		w.Tcb.Mods = mods
 	}
 	if r.Intn(2) == 0 {
